@@ -73,6 +73,14 @@ theorem cpuUpdate_spec {ths : List Thread} {c c' : Cpu} (h : cpuUpdate ths c = .
                 exact ⟨g, t, hg, hgt, rfl⟩
               · exact Or.inl rfl
 
+theorem Chan.set_cur_noign {c c' : Chan} {v : Value} (hi : c.ignoreDup = false) (h : c.set v = .ok c') :
+    c'.cur = v := by
+  unfold Chan.set at h
+  simp only [hi] at h
+  repeat' split at h
+  all_goals first | cases h | skip
+  all_goals first | rfl | (rename_i hf; cases hf)
+
 theorem Chan.set_cur_cases {c c' : Chan} {v : Value} (h : c.set v = .ok c') : c' = c ∨ c'.cur = v := by
   unfold Chan.set at h
   repeat' split at h
@@ -156,11 +164,12 @@ theorem Sim.preThreadExecute {e e' : Emu} {ti : Nat} {p : List Nat} (h : preThre
     all_goals first | (cases h; done) | skip
     rename_i ci _ t1 h1 _ t2 h2
     obtain ⟨a1, a2, a3, _, _⟩ := Thread.setCpu_spec h1
-    obtain ⟨b1, b2, b3, _, _⟩ := Thread.setState_spec h2
-    exact (Sim.setThread ht (b1.trans a1) (b2.trans a2) (chanOp_set _) (a3 ▸ b3)).trans (Sim.cpuAddThread h)
+    obtain ⟨b1, b2, b3, _, b5⟩ := Thread.setState_spec h2
+    exact (Sim.setThread ht (b1.trans a1) (b2.trans a2) (chanOp_set _) (a3 ▸ b3)
+      (fun hi => Or.inl (by rw [b5]; exact Chan.set_cur_noign hi (a3 ▸ b3)))).trans (Sim.cpuAddThread h)
 
 theorem Thread.unsetCpu_spec {t t' : Thread} (h : t.unsetCpu = .ok t') :
-    t'.gindex = t.gindex ∧ t'.mch = t.mch ∧ t'.chState = t.chState := by
+    t'.gindex = t.gindex ∧ t'.mch = t.mch ∧ t'.chState = t.chState ∧ t'.state = t.state := by
   unfold Thread.unsetCpu at h
   simp only [bind, Except.bind, pure, Except.pure] at h
   split at h
@@ -168,10 +177,10 @@ theorem Thread.unsetCpu_spec {t t' : Thread} (h : t.unsetCpu = .ok t') :
   · split at h
     · cases h
     · cases h
-      exact ⟨rfl, rfl, rfl⟩
+      exact ⟨rfl, rfl, rfl, rfl⟩
 
 theorem Thread.migrateCpu_spec {t t' : Thread} {ci : Nat} (h : t.migrateCpu ci = .ok t') :
-    t'.gindex = t.gindex ∧ t'.mch = t.mch ∧ t'.chState = t.chState := by
+    t'.gindex = t.gindex ∧ t'.mch = t.mch ∧ t'.chState = t.chState ∧ t'.state = t.state := by
   unfold Thread.migrateCpu at h
   simp only [bind, Except.bind, pure, Except.pure] at h
   split at h
@@ -179,7 +188,7 @@ theorem Thread.migrateCpu_spec {t t' : Thread} {ci : Nat} (h : t.migrateCpu ci =
   · split at h
     · cases h
     · cases h
-      exact ⟨rfl, rfl, rfl⟩
+      exact ⟨rfl, rfl, rfl, rfl⟩
 
 theorem Sim.preThreadEnd {e e' : Emu} {ti : Nat} (h : preThreadEnd e ti = .ok e') : Sim e e' := by
   unfold Ovni.Emu.preThreadEnd at h
@@ -193,15 +202,16 @@ theorem Sim.preThreadEnd {e e' : Emu} {ti : Nat} (h : preThreadEnd e ti = .ok e'
     rename_i _ t1 h1 _ ci hci _ e1 hrm _ t2 h2
     injection h with h; subst h
     intro hs
-    obtain ⟨a1, a2, a3, _, _⟩ := Thread.setState_spec h1
-    obtain ⟨b1, b2, b3⟩ := Thread.unsetCpu_spec h2
+    obtain ⟨a1, a2, a3, _, a5⟩ := Thread.setState_spec h1
+    obtain ⟨b1, b2, b3, b4⟩ := Thread.unsetCpu_spec h2
     have hti : t1.gindex = ti := a1.trans (hs.thIdx ti t ht)
     have hlt : ti < e.threads.length := (List.getElem?_eq_some_iff.mp ht).1
     have ht1 : e1.threads[ti]? = some t1 := by
       rw [cpuRemoveThread_threads hrm]
       simp only [Emu.setThread, hti, List.getElem?_set_self hlt]
-    exact ((Sim.setThread ht a1 a2 (chanOp_set _) a3).trans
-      ((Sim.cpuRemoveThread hrm).trans (Sim.setThread_same ht1 b1 b2 b3))) hs
+    exact ((Sim.setThread ht a1 a2 (chanOp_set _) a3
+        (fun hi => Or.inl (by rw [a5]; exact Chan.set_cur_noign hi a3))).trans
+      ((Sim.cpuRemoveThread hrm).trans (Sim.setThread_same ht1 b1 b2 b3 b4))) hs
 
 theorem Sim.preThreadChange {e e' : Emu} {ti : Nat} {ok : ThState → Bool} {st : ThState}
     (h : preThreadChange e ti ok st = .ok e') : Sim e e' := by
@@ -214,8 +224,9 @@ theorem Sim.preThreadChange {e e' : Emu} {ti : Nat} {ok : ThState → Bool} {st 
     repeat' split at h
     all_goals first | (cases h; done) | skip
     rename_i _ t1 h1 _ ci hci
-    obtain ⟨a1, a2, a3, _, _⟩ := Thread.setState_spec h1
-    exact (Sim.setThread ht a1 a2 (chanOp_set _) a3).trans (Sim.cpuRefresh h)
+    obtain ⟨a1, a2, a3, _, a5⟩ := Thread.setState_spec h1
+    exact (Sim.setThread ht a1 a2 (chanOp_set _) a3
+      (fun hi => Or.inl (by rw [a5]; exact Chan.set_cur_noign hi a3))).trans (Sim.cpuRefresh h)
 
 theorem Sim.preThread {e e' : Emu} {ti v : Nat} {p : List Nat} (h : preThread e ti v p = .ok e') :
     Sim e e' := by
@@ -237,8 +248,8 @@ theorem Sim.migrate {e e' : Emu} {ti fr to : Nat} (h : migrate e ti fr to = .ok 
   all_goals first | (cases h; done) | skip
   rename_i _ e1 hrm _ e2 hadd _ t ht _ t1 h1
   injection h with h; subst h
-  obtain ⟨b1, b2, b3⟩ := Thread.migrateCpu_spec h1
-  exact (Sim.cpuRemoveThread hrm).trans ((Sim.cpuAddThread hadd).trans (Sim.setThread_same ht b1 b2 b3))
+  obtain ⟨b1, b2, b3, b4⟩ := Thread.migrateCpu_spec h1
+  exact (Sim.cpuRemoveThread hrm).trans ((Sim.cpuAddThread hadd).trans (Sim.setThread_same ht b1 b2 b3 b4))
 
 theorem Sim.preAffinitySet {e e' : Emu} {ti : Nat} {p : List Nat} (h : preAffinitySet e ti p = .ok e') :
     Sim e e' := by
@@ -326,7 +337,7 @@ theorem Sim.withChan {e e' : Emu} {ti m i : Nat} {f : Chan → Except Err Chan} 
   have hthr : (e.setThread (t.setChans m (cs.set i c'))).threads = e.threads.set ti (t.setChans m (cs.set i c')) := by
     simp only [Emu.setThread, hg]
   have hmch := Thread.setChans_getElem? (cs' := cs.set i c') hnd hk
-  refine Sim.of_write (fun hs => ⟨⟨?_, hs.cpuIdx, ?_, hs.chars, ?_⟩, ?_⟩) (.raw ti k i) hf
+  refine Sim.of_write (fun hs => ⟨⟨?_, hs.cpuIdx, ?_, hs.chars, ?_, ?_⟩, ?_⟩) (.raw ti k i) hf
     (by simp only [Emu.src, ht, hk, hc]) hfc ?_ ?_ hs
   · intro g u hu
     rw [hthr] at hu
@@ -348,6 +359,11 @@ theorem Sim.withChan {e e' : Emu} {ti m i : Nat} {f : Chan → Except Err Chan} 
   · intro c x hx
     rw [hthr, List.length_set]
     exact hs.run c x hx
+  · intro g u hu
+    rw [hthr] at hu
+    rcases getElem?_set_some hu with ⟨rfl, rfl⟩ | ⟨_, h⟩
+    · exact hs.st g t ht
+    · exact hs.st g u h
   · simp only [Emu.shape, hthr, List.length_set]; rfl
   · simp only [Emu.src, hthr, List.getElem?_set_self hlt, hmch, if_true, List.getElem?_set_self hil]
   · intro s hne
@@ -399,7 +415,7 @@ theorem Sim.ovniEvent {e e' : Emu} {ti c v : Nat} {p : List Nat}
 
 theorem Sim.setOutOfCpu {e : Emu} {ti : Nat} {t : Thread} {b : Bool} (ht : e.threads[ti]? = some t) :
     Sim e (e.setThread { t with outOfCpu := b }) :=
-  Sim.setThread_same ht rfl rfl rfl
+  Sim.setThread_same ht rfl rfl rfl rfl
 
 theorem Sim.tableEvent {e e' : Emu} {ti c v : Nat} {m : ModelSpec}
     (h : tableEvent e ti m c v = .ok e') : Sim e e' := by
